@@ -149,7 +149,15 @@ retry:
 func (s S3Store) HasChunk(id ChunkID) (bool, error) {
 	name := s.nameFromID(id)
 	_, err := s.client.StatObject(s.bucket, name, minio.StatObjectOptions{})
-	return err == nil, nil
+	if err != nil {
+		// Only report the chunk as not there if the store said so
+		switch minio.ToErrorResponse(err).Code {
+		case "NoSuchKey", "NoSuchBucket":
+			return false, nil
+		}
+		return false, errors.Wrap(err, s.String())
+	}
+	return true, nil
 }
 
 // RemoveChunk deletes a chunk, typically an invalid one, from the filesystem.
